@@ -663,8 +663,10 @@ def rule_t(F):
                            "%s is pushed with bytecode.push (no trace entry) but its interpreter arm has an error exit: "
                            "a failure of this instruction carries no source location of its own" % v, fn=em.fn.short))
         else:
-            res.append(ok("C10.T", "C10/T/raw/%s" % v, em.fn.loc(em.ln),
-                          "raw push of %s is allowed: its interpreter arm has no error exit" % v, fn=em.fn.short))
+            res.append(bad("C10.T", "C10/T/raw/%s" % v, em.fn.loc(em.ln),
+                           "%s is pushed with bytecode.push (no trace entry): its interpreter arm cannot fail, but the instruction budget "
+                           "can run out on any instruction - that Timeout then has no entry for the failing instruction and is located "
+                           "at the caller's call card" % v, fn=em.fn.short))
     # all other emissions go through push_instruction: count them
     n = sum(1 for v, em in emissions if not em.raw)
     res.append(ok("C10.T", "C10/T/push_instruction-sites", "", "%d emissions go through push_instruction" % n, sites=n))
@@ -1034,7 +1036,7 @@ def _c06_rule_w(F):
 
 RULES = [
     Rule("C10.W", rule_w, 150, "operand-width agreement emitter/span/decoder/disassembler per instruction"),
-    Rule("C10.T", rule_t, 3, "every failing instruction has a trace entry; trace key is the opcode position"),
+    Rule("C10.T", rule_t, 2, "every failing instruction has a trace entry; trace key is the opcode position"),
     Rule("C10.J", rule_j, 6, "jump operands are placeholders that get patched, or derive from bytecode.len()"),
     Rule("C10.E", rule_e, 2, "terminal Exit on every Ok path of Compiler::compile"),
     Rule("C10.U", shared(_c06_rule_w, "C06.W", "C10.U"), 2, "upvalue operands index the closure's own upvalue list (shared with C06.W)"),
